@@ -817,6 +817,27 @@ pub fn run_regs(out: &mut Out, seed: u64, _n: u64) {
         call(out, Call { api: "GS::read_base", reg: Reg::None, pre: a, mask: 0, p: [0; 4] }, || Ok(vec![GS::read_base().as_u64()]));
         unsafe { core::arch::asm!("wrgsbase {}", in(reg) old, options(nostack, preserves_flags)) };
     }
+    for &a in [
+        0xffff_ffff_8000_0000u64, 0xffff_ffff_ffff_f000, 0xffff_ffff_8123_4567, 0xffff_ffff_7fff_ffff, 0x8000_0000, 0xffff_ffff,
+        0x7fff_ffff, 0x1_0000_0000, 0xffff_8000_0000_0000, 0xffff_fffe_ffff_ffff, 0xffff_ffff_ffff_ffff,
+    ]
+    .iter()
+    {
+        let old: u64;
+        unsafe { core::arch::asm!("rdgsbase {}", out(reg) old, options(nomem, nostack, preserves_flags)) };
+        let mut after = 0u64;
+        call(out, Call { api: "GS::write_base", reg: Reg::None, pre: old, mask: 0, p: [a, 0, 0, 0] }, || {
+            unsafe { GS::write_base(vaddr(a)) };
+            unsafe { core::arch::asm!("rdgsbase {}", out(reg) after, options(nomem, nostack, preserves_flags)) };
+            Ok(vec![after])
+        });
+        call(out, Call { api: "GS::read_base", reg: Reg::None, pre: a, mask: 0, p: [0; 4] }, || Ok(vec![GS::read_base().as_u64()]));
+        unsafe { core::arch::asm!("wrgsbase {}", in(reg) old, options(nostack, preserves_flags)) };
+        // FS base: thread-local storage hangs on it, so the other value is in place only between asm blocks
+        let (after, seen) = fs_base_rt(a);
+        call(out, Call { api: "FS::write_base", reg: Reg::None, pre: 0, mask: 0, p: [a, 0, 0, 0] }, || Ok(vec![after]));
+        call(out, Call { api: "FS::read_base", reg: Reg::None, pre: a, mask: 0, p: [0; 4] }, || Ok(vec![seen]));
+    }
     {
         let cur: u64 = native_u64(|| {
             let v: u64;
@@ -1089,6 +1110,19 @@ ctx_probe!(ctx_seg_rt, |c, d, e, f| {
     std::hint::black_box((c, d, e, f));
 });
 
+#[inline(never)]
+fn fs_base_rt(a: u64) -> (u64, u64) {
+    let (old, after): (u64, u64);
+    unsafe {
+        core::arch::asm!("rdfsbase {}", out(reg) old, options(nomem, nostack, preserves_flags));
+        FS::write_base(VirtAddr::new_truncate(a));
+        let seen = FS::read_base().as_u64();
+        core::arch::asm!("rdfsbase {}", out(reg) after, options(nomem, nostack, preserves_flags));
+        core::arch::asm!("wrfsbase {}", in(reg) old, options(nostack, preserves_flags));
+        (after, seen)
+    }
+}
+
 /// Register-pressure probes: a leaf function that keeps 13 opaque values in registers (what does not fit is spilled
 /// into the red zone) and 8 more in address-taken red-zone memory across ONE wrapper call; all 21 come back.
 /// An undeclared clobber, a wrong `nostack` or a lost store of the wrapper's asm block changes one of them.
@@ -1182,9 +1216,48 @@ pressure_probe!(pp_hlt_nop, |v, w| { x86_64::instructions::hlt(); x86_64::instru
 pressure_probe!(pp_rflags, |v, w| { let f = rflags::read_raw(); rflags::write_raw(f); std::hint::black_box((rflags::read(), v, w)); });
 pressure_probe!(pp_mxcsr, |v, w| { let m = x86_64::registers::mxcsr::read(); x86_64::registers::mxcsr::write(m); std::hint::black_box((v, w)); });
 
+pressure_probe!(pp_dr7_write, |v, w| { Dr7::write(Dr7Value::from_bits_truncate(v)); std::hint::black_box(w); });
+pressure_probe!(pp_dr7_update, |v, w| { Dr7::update(|x| *x = Dr7Value::from_bits_truncate(v)); std::hint::black_box(w); });
+pressure_probe!(pp_cr0_write, |v, w| { Cr0::write(Cr0Flags::from_bits_truncate(v)); std::hint::black_box(w); });
+pressure_probe!(pp_cr0_update, |v, w| { Cr0::update(|x| *x = Cr0Flags::from_bits_truncate(v)); std::hint::black_box(w); });
+pressure_probe!(pp_cr4_update, |v, w| { Cr4::update(|x| *x = Cr4Flags::from_bits_truncate(v)); std::hint::black_box(w); });
+pressure_probe!(pp_efer_write, |v, w| { Efer::write(EferFlags::from_bits_truncate(v)); std::hint::black_box(w); });
+pressure_probe!(pp_efer_update, |v, w| { Efer::update(|x| *x = EferFlags::from_bits_truncate(v)); std::hint::black_box(w); });
+pressure_probe!(pp_lstar_write, |v, w| { LStar::write(VirtAddr::new_truncate(v)); std::hint::black_box((LStar::read(), w)); });
+pressure_probe!(pp_sfmask, |v, w| { SFMask::write(RFlags::from_bits_truncate(v)); SFMask::update(|x| *x |= RFlags::from_bits_truncate(w)); });
+pressure_probe!(pp_kgsbase, |v, w| { KernelGsBase::write(VirtAddr::new_truncate(v)); std::hint::black_box((KernelGsBase::read(), w)); });
+pressure_probe!(pp_xcr0_write, |v, w| {
+    // a combination XCr0::write accepts: x87 | SSE | AVX, further bits from v only if they form a valid set
+    let fl = XCr0Flags::X87 | XCr0Flags::SSE | if v & 1 == 0 { XCr0Flags::AVX } else { XCr0Flags::empty() };
+    XCr0::write(fl);
+    std::hint::black_box(w);
+});
+// narrow arguments taken from the low part of a register whose upper bits hold other data
+pressure_probe!(pp_cr3_write_raw, |v, w| {
+    Cr3::write_raw(PhysFrame::<Size4KiB>::containing_address(PhysAddr::new_truncate(v)), w as u16);
+});
+pressure_probe!(pp_cr3_write_pcid, |v, w| {
+    Cr3::write_pcid(PhysFrame::<Size4KiB>::containing_address(PhysAddr::new_truncate(v)), Pcid::new((w as u16) & 0xfff).unwrap());
+});
+pressure_probe!(pp_star_raw, |v, w| { Star::write_raw(v as u16, w as u16); });
+
 type PP = fn(&[u64; 16], u64, u64, &mut [u64; 21]);
 /// (name, group, probe)
-const PRESSURE: [(&str, &str, PP); 42] = [
+const PRESSURE: [(&str, &str, PP); 56] = [
+    ("dr7_write", "regs", pp_dr7_write),
+    ("dr7_update", "regs", pp_dr7_update),
+    ("cr0_write", "regs", pp_cr0_write),
+    ("cr0_update", "regs", pp_cr0_update),
+    ("cr4_update", "regs", pp_cr4_update),
+    ("efer_write", "regs", pp_efer_write),
+    ("efer_update", "regs", pp_efer_update),
+    ("lstar_write", "regs", pp_lstar_write),
+    ("sfmask", "regs", pp_sfmask),
+    ("kgsbase", "regs", pp_kgsbase),
+    ("xcr0_write", "regs", pp_xcr0_write),
+    ("cr3_write_raw", "regs", pp_cr3_write_raw),
+    ("cr3_write_pcid", "regs", pp_cr3_write_pcid),
+    ("star_raw", "regs", pp_star_raw),
     ("xcr0_write_raw", "regs", pp_xcr0_write_raw),
     ("xcr0_read_raw", "regs", pp_xcr0_read_raw),
     ("cs_reload", "regs", pp_cs_reload),
@@ -1241,8 +1314,10 @@ fn run_pressure(out: &mut Out, r: &mut Rng, only: &str) {
             }
             let sel = ((20 + r.below(4000)) << 3) & 0xffff;
             let (v, w) = match *name {
-                "cs_set" | "ds_set" | "load_tss" => (sel, r.next()),
-                "port_w8" | "port_w16" | "port_w32" | "port_r8" | "port_r16" | "port_r32" => (r.next(), 0x6000 + r.below(0x1000)),
+                // 16-bit arguments arrive as the low part of a full register
+                "cs_set" | "ds_set" | "load_tss" => (sel | (r.next() << 16), r.next()),
+                "port_w8" | "port_w16" | "port_w32" | "port_r8" | "port_r16" | "port_r32" => (r.next(), (0x6000 + r.below(0x1000)) | (r.next() << 16)),
+                "cr3_write_raw" | "cr3_write_pcid" => (r.next() & 0x000f_ffff_ffff_f000, r.next()),
                 _ => (r.next(), r.next()),
             };
             set(Reg::Cr(4), 0);
